@@ -24,6 +24,7 @@ CSV = CFG + '/merchant_categories.csv'
 BAK = CSV + '.bak'
 RULES = CFG + '/merchants.rules'
 SETTINGS = CFG + '/settings.yaml'
+TMP = SETTINGS + '.tmp'
 KEYLINE = 'merchants_file: config/merchants.rules\n'
 
 
@@ -143,6 +144,12 @@ def run_migration(ctx, files, faults, label):
                 boundary('appended:settings.key_line')
             else:
                 boundary('appended:settings.comment')
+        elif path == TMP and mode == 'w' and isinstance(data, tuple) and data[:2] == ('CONTENT+KEY', SETTINGS) and data[2] is not None and data[2][0] == 'settings':
+            # the whole new settings text goes into the temporary file: a torn write tears THAT file
+            fs.files[path] = ('settings', 'partial')
+            boundary('partial_write:settings.tmp')
+            fs.files[path] = ('settings', 'full')
+            boundary('written:settings.tmp')
         elif path == SETTINGS and isinstance(data, tuple) and data[:2] == ('CONTENT+', SETTINGS) and data[2] is not None:
             # the old content (plus a suffix without the key) written back: a torn write leaves a prefix of it
             boundary('partial_rewrite:settings.yaml')
@@ -203,10 +210,12 @@ def run_migration(ctx, files, faults, label):
         return orig_method(o, attr, args, kwargs, node)
 
     def binop(op, a, b, node):
-        if isinstance(a, tuple) and a and a[0] in ('CONTENT', 'CONTENT+') and isinstance(b, str) and isinstance(op, ast.Add):
+        if isinstance(a, tuple) and a and a[0] in ('CONTENT', 'CONTENT+', 'CONTENT+KEY') and isinstance(b, str) and isinstance(op, ast.Add):
+            if b == KEYLINE and a[0] in ('CONTENT', 'CONTENT+'):
+                return ('CONTENT+KEY', a[1], a[2])            # the old settings text followed by the key line
             if 'merchants_file' in b:
-                raise Unsupported('settings key written through a rewrite')
-            return ('CONTENT+', a[1], a[2])
+                raise Unsupported('settings key written in another form: %r' % b)
+            return (a[0] if a[0] == 'CONTENT+KEY' else 'CONTENT+', a[1], a[2])
         return orig_binop(op, a, b, node)
     I.method, I.binop = method, binop
 
@@ -218,6 +227,16 @@ def run_migration(ctx, files, faults, label):
         fs.files[dst] = fs.files.pop(src)
         boundary('moved:%s->%s' % (src.split('/')[-1], dst.split('/')[-1]))
     sp.models['shutil.move'] = Func(m_move)
+
+    def m_replace(I_, a, k, n):
+        # os.replace: atomic rename over the destination (A9)
+        src, dst = a
+        maybe_fault('replace(%s)' % src.split('/')[-1])
+        if src not in fs.files:
+            raise PyRaise('FileNotFoundError', (), 'replace')
+        fs.files[dst] = fs.files.pop(src)
+        boundary('replaced:%s->%s' % (src.split('/')[-1], dst.split('/')[-1]))
+    sp.models['os.replace'] = Func(m_replace)
     fi = find_function('tally.cli._migrate_csv_to_rules')
     result = None
     try:
